@@ -793,6 +793,7 @@ class Parser:
 VTUPLE_ENUMS = set()
 
 
+TENUMS = {}             # enum with tuple-variant payloads kept as a Lean inductive type: name -> [(Variant, [field types])]
 HELPER_GETTERS = set()   # names of private generic helpers that are `storage().persistent().get(key)` + TTL bookkeeping
 OPAQUE_CONSTS = {}      # (Enum, Variant) of an enum kept as an opaque identifier -> (number, type)
 
@@ -1017,6 +1018,8 @@ class Gen:
             return "Nat"     # a leaf value: an opaque identifier (its hash and index are reads)
         if ty in getattr(self, "penums", {}):
             return ty
+        if ty in TENUMS:
+            return ty
         if ty in ("Symbol", "Signer", "Val", "Ctx"):
             return "Nat"     # a role / function name / host value: an opaque identifier
         if ty in ("Address", "MuxedAddress"):
@@ -1033,9 +1036,9 @@ class Gen:
             # a host map with opaque-identifier keys: the association list sorted by key, one entry per key
             # (`mapGet` / `mapSet` of the prelude)
             kt_, vt_ = ty[4:-1].split(",")
-            if self.lean_ty(kt_) != "Nat":
-                raise Unsupported(f"map keyed by {kt_}")
-            return f"(List (Nat × {self.lean_ty(vt_)}))"
+            # (keys of another type than an identifier: the entries can only be iterated; `mapGet` / `mapSet` would
+            # not type-check)
+            return f"(List ({self.lean_ty(kt_)} × {self.lean_ty(vt_)}))"
         if ty.startswith("BytesN<"):
             return "Nat"     # an opaque identifier, only passed through
         if ty in ("bool", "TryOk"):
@@ -1295,6 +1298,8 @@ class Gen:
             return (f"{l}.{e[2]}", flds[e[2]])
         if e[0] == "field" and e[2] == "0":
             l, t = self.pure(e[1], env)
+            if t.startswith("Map<") or t.startswith("Vec<"):
+                return (l, t)      # a newtype around a host collection (`Signatures(pub Map<..>)`): the collection itself
             if t != "Wad":
                 raise Unsupported(f".0 of {t}")
             return (l, "i128")
@@ -1354,6 +1359,13 @@ class Gen:
         if e == ("mcall", ("var", "e"), "current_contract_address", []) and "current_contract_address" in rd_:
             self.uses_reads = True
             return ("envr.current_contract_address", "Address")
+        if e[0] == "mcall" and e[2] == "to_bytes" and not e[3]:
+            try:
+                l_, t_ = self.pure(e[1], env)
+            except Unsupported:
+                l_, t_ = None, None
+            if t_ == "Bytes32":
+                return (l_, t_)     # `Hash<32>::to_bytes()`: the same 32 bytes
         if e[0] == "mcall" and e[2] == "to_array" and not e[3]:
             l, t = self.pure(e[1], env)
             if t in ("Bytes", "Bytes32"):
@@ -1552,6 +1564,17 @@ class Gen:
     def pure_mcall(self, e, env):
         _, recv, name, args = e
         r0 = self.strip(recv)
+        if name == "any" and len(args) == 1 and r0[0] == "mcall" and r0[2] == "iter" and not r0[3]:
+            # `v.iter().any(|x| pure predicate)`
+            cl = self.strip(args[0])
+            try:
+                vl, vt = self.pure(r0[1], env)
+            except Unsupported:
+                return None
+            if vt.startswith("Vec<") and cl[0] == "closure" and len(cl[1]) == 1 and isinstance(cl[1][0], str):
+                x_ = self.fresh(cl[1][0] + "_")
+                pl = self.cond(cl[2], dict(env, **{cl[1][0]: (x_, vt[4:-1])}))
+                return (f"(List.any {vl} (fun {x_} => decide {pl}))", "bool")
         if name == "position" and len(args) == 1 and r0[0] == "mcall" and r0[2] == "iter" and not r0[3]:
             # `v.iter().position(|x| pure predicate)`: index of the first element satisfying it
             cl = self.strip(args[0])
@@ -1601,10 +1624,18 @@ class Gen:
             return (f"(List.map Prod.fst {rl})", f"Vec<{rt[4:-1].split(',')[0]}>")
         if rt.startswith("Map<") and name == "len" and not args:
             return (f"(List.length {rl})", "u32")
+        if rt.startswith("Vec<") and name == "first_index_of" and len(args) == 1:
+            # index of the first element equal to the argument
+            al, at_ = self.pure(args[0], env)
+            elt = rt[4:-1]
+            x_ = self.fresh("y_")
+            return (f"(List.findIdx? (fun {x_} => decide ({x_} = {as_nat(al, at_) if elt in NATTY else al})) {rl})", "Option<u32>")
         if rt.startswith("Vec<") and name == "is_empty" and not args:
             return (f"(List.isEmpty {rl})", "bool")
         if rt.startswith("Vec<") and name == "len" and not args:
             return (f"(List.length {rl})", "u32")
+        if rt == "Bytes" and name == "len" and not args:
+            return (f"(List.length {rl})", "u32")     # the length of a byte string / host string
         if rt in NATTY and name == "div_ceil" and len(args) == 1:
             a_ = self.strip(args[0])
             if not (a_[0] == "num" and int(str(a_[1]).replace("_", ""), 0) > 0):
@@ -1819,6 +1850,47 @@ class Gen:
                     return f"(Rounding.pick {s}\n {arms['Floor']}\n {arms['Ceil']}\n {arms['Truncate']})"
                 raise Unsupported(f"match on {st} with arms {sorted(arms)}")
             return self.tr(e[1], env, km, ret)
+        if kind == "call" and e[1] == ("path", ["Vec", "from_iter"]) and len(e[2]) == 2 and self.strip(e[2][0]) in (("var", "e"), ("var", "_e")) \
+                and self.strip(e[2][1])[0] == "mcall" and self.strip(e[2][1])[2] == "map" and len(self.strip(e[2][1])[3]) == 1 \
+                and self.strip(self.strip(e[2][1])[3][0])[0] == "closure" and len(self.strip(self.strip(e[2][1])[3][0])[1]) == 1 \
+                and self.strip(self.strip(e[2][1])[1])[0] == "mcall" and self.strip(self.strip(e[2][1])[1])[2] == "iter":
+            # `Vec::from_iter(e, v.iter().map(|x| body))` with a body that computes (and may trap): the results in order,
+            # by an auxiliary definition recursing on the list (the first trap aborts the whole collection)
+            m_ = self.strip(e[2][1])
+            cl_ = self.strip(m_[3][0])
+            src_ = self.strip(m_[1])[1]
+            vl, vt = self.pure(src_, env)
+            if not vt.startswith("Vec<"):
+                raise Unsupported("from_iter over " + vt)
+            self.loops += 1
+            name = f"{self.cur_ns}.{self.cur_fn}.loop{self.loops}"
+            others = [v for v in sorted(env) if not v.startswith("$") and not env[v][1].startswith("Key:") and env[v][1] != "Closure"
+                      and not (env[v][1].startswith("Client:") and not env[v][0])]
+            penv = {v: (v + "_", env[v][1]) for v in others}
+            plist = " ".join(f"({penv[v][0]} : {self.lean_ty(env[v][1])})" for v in others)
+            rd = self.cur_ns in getattr(self, "reads_ns", set())
+            ev = " envr" if rd else ""
+            has_st_ = "$st" in env
+            if has_st_:
+                if (self.cur_ns, self.cur_fn) in getattr(self, "writers", set()):
+                    raise Unsupported("from_iter with a computing closure inside a state-changing function")
+                penv["$st"] = ("st_", "Store")       # a reader: the store is a constant parameter
+                plist = f"(st_ : {self.cur_ns}.Store) " + plist
+            stp_ = (lambda en: en["$st"][0] + " ") if has_st_ else (lambda en: "")
+            xn = cl_[1][0]
+            seen = {}
+            def kbody(a, t):
+                seen["t"] = t
+                r_ = self.fresh("r")
+                return (f"(Comp.bind ({name}{ev} rest_ {stp_(penv)}{' '.join(penv[v][0] for v in others)}) fun {r_} =>\n Comp.ok ({a} :: {r_}))")
+            body_code = self.tr(cl_[2], dict(penv, **{xn: (xn + "_", vt[4:-1])}), kbody, ret)
+            elt_t = seen.get("t")
+            if elt_t is None:
+                raise Unsupported("from_iter: closure body")
+            self.aux.append(f"def {name} {'(envr : ' + self.cur_ns + '.Reads) ' if rd else ''}(xs_ : List {self.lean_ty(vt[4:-1])}) {plist} : Comp (List {self.lean_ty(elt_t)}) :=\n"
+                            f" match xs_ with\n | [] => Comp.ok []\n | {xn}_ :: rest_ =>\n {body_code}\n")
+            v_ = self.fresh()
+            return f"(Comp.bind ({name}{ev} {vl} {stp_(env)}{' '.join(env[v][0] for v in others)}) fun {v_} =>\n {k(v_, 'Vec<' + elt_t + '>')})"
         if kind == "call" and e[1][0] == "var" and ("$cl:" + e[1][1]) in env:
             # a call of a local closure `let f = |x| { body }`: the body is expanded here with the parameters bound
             # to the arguments (the closure captures immutable bindings only: its free variables keep their values)
@@ -2237,6 +2309,47 @@ class Gen:
                         raise Unsupported("out argument that is neither a local nor a field of a local")
                     return go(i + 1, env2)
                 return self.tr(s[3], env, kout, ret)
+            if s[0] == "expr" and self.strip(s[1])[0] == "match" and all(p_[0] == "vtuple" and p_[1][0] in TENUMS for p_, _ in self.strip(s[1])[2]):
+                # `match x { Enum::A(a, b) => { .. } Enum::B(c) => { .. } }` over a tuple-variant enum, as a statement:
+                # a Lean `match`; what follows the statement continues in every arm
+                m_ = self.strip(s[1])
+                en_ = m_[2][0][0][1][0]
+                vs_ = dict(TENUMS[en_])
+                if sorted(p_[1][1] for p_, _ in m_[2]) != sorted(vs_):
+                    raise Unsupported(f"match on {en_} does not name every variant exactly once")
+                def kmt(sv, st_):
+                    if st_ != en_:
+                        raise Unsupported(f"match on {st_}")
+                    arms_ = []
+                    for p_, b_ in m_[2]:
+                        vn_ = p_[1][1]
+                        if len(p_[2]) != len(vs_[vn_]):
+                            raise Unsupported(f"pattern {en_}::{vn_}: arity")
+                        fresh_ = [self.fresh(n_ + "_") for n_ in p_[2]]
+                        env1 = dict(env, **{n_: (f_, t_) for n_, f_, t_ in zip(p_[2], fresh_, vs_[vn_])})
+                        b_ = b_ if b_[0] == "block" else ("block", [("expr", b_)], None)
+                        if b_[2] is not None:
+                            b_ = ("block", list(b_[1]) + [("expr", b_[2])], None)     # a unit-valued tail is a statement
+                        code_ = self.tr_stmts(b_[1], env1, lambda env3: go(i + 1, dict(env, **{"$st": env3["$st"]}) if "$st" in env3 else env), ret)
+                        arms_.append(f" | .{vn_} {' '.join(fresh_)} =>\n {code_}")
+                    return f"(match {sv} with\n" + "\n".join(arms_) + ")"
+                return self.tr(m_[1], env, kmt, ret)
+            if s[0] == "expr" and self.strip(s[1])[0] == "mcall" and self.strip(self.strip(s[1])[1])[0] == "call" \
+                    and self.strip(self.strip(s[1])[1])[1][0] == "path" and len(self.strip(self.strip(s[1])[1])[1][1]) == 2 \
+                    and self.strip(self.strip(s[1])[1])[1][1][1] == "new" and self.strip(self.strip(s[1])[1])[1][1][0].endswith("Client") \
+                    and isinstance(getattr(self, "reads", {}).get(self.strip(self.strip(s[1])[1])[1][1][0] + "_" + self.strip(s[1])[2]), tuple):
+                # `XClient::new(e, &addr).method(args);` as a statement: called for its trap (its effects belong to the
+                # other contract)
+                return self.tr(self.strip(s[1]), env, lambda a, t: go(i + 1, env), ret)
+            if s[0] == "expr" and not getattr(self, "store", None) and self.strip(s[1])[0] == "call" and self.strip(s[1])[1][0] == "var" \
+                    and (self.cur_ns, self.strip(s[1])[1][1]) in self.sigs and self.sigs[(self.cur_ns, self.strip(s[1])[1][1])][1] == "()":
+                # a translated function called for its trap only (`authenticate(e, ..);`)
+                return self.tr(self.strip(s[1]), env, lambda a, t: go(i + 1, env), ret)
+            if s[0] == "expr" and self.strip(s[1])[0] == "call" and self.strip(s[1])[1][0] == "var" \
+                    and isinstance(getattr(self, "reads", {}).get(self.strip(s[1])[1][1]), tuple) \
+                    and self.reads[self.strip(s[1])[1][1]][0] == "fn" and (self.cur_ns, self.strip(s[1])[1][1]) not in self.sigs:
+                # a declared function of the reads record called for its trap only (`validate(e, &x);`)
+                return self.tr(self.strip(s[1]), env, lambda a, t: go(i + 1, env), ret)
             if s[0] == "let" and self.strip(s[3])[0] == "closure" and all(isinstance(p_, str) for p_ in self.strip(s[3])[1]):
                 # `let f = |x| { .. };` — a local function: remembered, and expanded where it is called
                 return go(i + 1, dict(env, **{s[1]: ("", "Closure"), "$cl:" + s[1]: (self.strip(s[3]), "Closure")}))
@@ -2491,6 +2604,24 @@ class Gen:
                 def kfp(a, t):
                     return go(i + 1, dict(env, **{xn_: (f"({{ {xo_} with {fe_[2]} := {xo_}.{fe_[2]} ++ [{as_nat(a, t) if ft_[4:-1] in NATTY else a}] }} : {xt_})", xt_)}))
                 return self.tr(e_[3][0], env, kfp, ret)
+            if s[0] == "expr" and self.strip(s[1])[0] == "mcall" and self.strip(s[1])[2] == "pop_back" and not self.strip(s[1])[3] \
+                    and self.strip(self.strip(s[1])[1])[0] == "var" and env.get(self.strip(self.strip(s[1])[1])[1], ("", ""))[1].startswith("Vec<"):
+                # `v.pop_back();` on a local vector (the returned element is dropped)
+                vn = self.strip(self.strip(s[1])[1])[1]
+                old_, vt_ = env[vn]
+                return go(i + 1, dict(env, **{vn: (f"(List.dropLast {old_})", vt_)}))
+            if s[0] == "expr" and self.strip(s[1])[0] == "mcall" and self.strip(s[1])[2] == "set" and len(self.strip(s[1])[3]) == 2 \
+                    and self.strip(self.strip(s[1])[1])[0] == "var" and env.get(self.strip(self.strip(s[1])[1])[1], ("", ""))[1].startswith("Vec<"):
+                # `v.set(i, x);` on a local vector: a host error (panic) when `i` is out of bounds
+                vn = self.strip(self.strip(s[1])[1])[1]
+                old_, vt_ = env[vn]
+                def ksi(ia, it_):
+                    def ksv(xa, xt_):
+                        xv_ = as_nat(xa, xt_) if vt_[4:-1] in NATTY else xa
+                        return (f"(if {as_nat(ia, it_)} < List.length {old_} then\n "
+                                f"{go(i + 1, dict(env, **{vn: (f'(List.set {old_} {as_nat(ia, it_)} {xv_})', vt_)}))}\n else\n Comp.panic)")
+                    return self.tr(self.strip(s[1])[3][1], env, ksv, ret)
+                return self.tr(self.strip(s[1])[3][0], env, ksi, ret)
             if s[0] == "expr" and self.strip(s[1])[0] == "mcall" and self.strip(s[1])[2] == "pop_front" and not self.strip(s[1])[3] \
                     and self.strip(self.strip(s[1])[1])[0] == "var" and env.get(self.strip(self.strip(s[1])[1])[1], ("", ""))[1].startswith("Vec<"):
                 # `v.pop_front();` on a local vector (the returned element is dropped)
@@ -2512,7 +2643,9 @@ class Gen:
                 return self.tr(s[3], env, kfa, ret)
             if s[0] == "expr" and self.strip(s[1])[0] == "mcall" and self.strip(s[1])[2] == "set" and len(self.strip(s[1])[3]) == 2 \
                     and self.strip(self.strip(s[1])[1])[0] == "field" and self.strip(self.strip(self.strip(s[1])[1])[1])[0] == "var" \
-                    and self.strip(self.strip(self.strip(s[1])[1])[1])[1] in env:
+                    and self.strip(self.strip(self.strip(s[1])[1])[1])[1] in env \
+                    and dict(getattr(self, "structs", {}).get(env[self.strip(self.strip(self.strip(s[1])[1])[1])[1]][1], [])).get(
+                        self.strip(self.strip(s[1])[1])[2], "").startswith("Map<"):
                 # `x.f.set(k, v);` on a map-valued field of a local struct value
                 e_ = self.strip(s[1])
                 fe_ = self.strip(e_[1])
@@ -2580,7 +2713,8 @@ class Gen:
                             return gox(j + 1)
                         return self.tr(cargs[j], env, kx, ret)
                     return gox(0)
-            if s[0] == "expr" and ("authorized" in getattr(self, "reads", {}) or getattr(self, "store", None)):
+            if s[0] == "expr" and ("authorized" in getattr(self, "reads", {}) or "authorized_for_args" in getattr(self, "reads", {})
+                                   or getattr(self, "store", None)):
                 e = self.strip(s[1])
                 if e[0] == "mcall" and e[2] == "require_auth" and not e[3] and "authorized" in getattr(self, "reads", {}):
                     l, t = self.pure(e[1], env)
@@ -2764,6 +2898,15 @@ class Gen:
                             none_c = self.tr_stmts(eb_[1], env, after, ret)
                         return f"(optCase {a}\n (fun {nb} =>\n {some_c})\n ({none_c}))"
                     return self.tr(sc, env, kil, ret)
+                if e[0] == "mcall" and e[2] in self.MUTATORS and self.strip(e[1])[0] == "field" and self.strip(self.strip(e[1])[1])[0] == "var" \
+                        and self.strip(self.strip(e[1])[1])[1] in env \
+                        and dict(getattr(self, "structs", {}).get(env[self.strip(self.strip(e[1])[1])[1]][1], [])).get(self.strip(e[1])[2], "").startswith("Vec<"):
+                    # `x.f.m(args);` on a vector-valued field of a local struct value: `let mut t = x.f; t.m(args); x.f = t;`
+                    fe_ = self.strip(e[1])
+                    tmp_ = self.fresh("fld_")
+                    stmts2 = [("let", tmp_, True, fe_, None), ("expr", ("mcall", ("var", tmp_), e[2], e[3])),
+                              ("assign", fe_, "=", ("var", tmp_))] + list(stmts[i + 1:])
+                    return self.tr_stmts(stmts2, env, k_end, ret)
                 raise Unsupported(f"expression statement {e[0]}")
             raise Unsupported(f"statement {s[0]}")
         return go(0, env)
@@ -2806,6 +2949,8 @@ class Gen:
             if unit_if(t_):
                 return ("block", b[1] + [("expr", b[2])], None)
             if t_[0] == "match" and any(p_[0] == "vstruct" for p_, _ in t_[2]):
+                return ("block", b[1] + [("expr", b[2])], None)
+            if t_[0] == "match" and t_[2] and all(p_[0] == "vtuple" for p_, _ in t_[2]):
                 return ("block", b[1] + [("expr", b[2])], None)
             if t_[0] == "match" and len(t_[2]) == 2 and t_[2][0][0][0] == "some" and len(t_[2][0][0]) == 3 and t_[2][1][0][0] == "wild":
                 return ("block", b[1] + [("expr", b[2])], None)     # `match o { Some(x) if g => A, _ => B }` for its effects
@@ -2883,12 +3028,12 @@ class Gen:
         if c_[0] == "mcall" and c_[2] == "rev" and not c_[3] and self.strip(c_[1])[0] == "bin" and self.strip(c_[1])[1] == "..=":
             return self.tr_for_range_rev(var, self.strip(c_[1]), body, env, k_after, ret)
         zipped = None
-        if c_[0] == "bin" and c_[1] == "..":
-            # `for i in lo..hi`: the list of the indices, ascending
+        if c_[0] == "bin" and c_[1] in ("..", "..="):
+            # `for i in lo..hi` / `lo..=hi`: the list of the indices, ascending
             ll, lt = self.pure(c_[2], env)
             hl, ht = self.pure(c_[3], env)
             ll, hl = as_nat(ll, lt), as_nat(hl, ht)
-            cl, ct = f"(List.range' {ll} ({hl} - {ll}))", "Vec<u32>"
+            cl, ct = (f"(List.range' {ll} ({hl} - {ll}))" if c_[1] == ".." else f"(List.range' {ll} ({hl} + 1 - {ll}))"), "Vec<u32>"
         elif c_[0] == "mcall" and c_[2] == "zip" and len(c_[3]) == 1:
             # `a.iter().zip(b)`: the list of pairs, as long as the shorter side
             l_ = self.strip(c_[1])
@@ -2988,7 +3133,14 @@ class Gen:
             penv["$st"] = ("st_", "Store")
             plist = f"(st_ : {self.cur_ns}.Store) " + plist
         again = lambda en: f"{name}{ev} rest_ {(en['$st'][0] + ' ') if (carry_st or st_in_env) else ''}{' '.join(en[v][0] for v in params)}"
-        if isinstance(var, tuple):
+        if isinstance(var, tuple) and zipped is None and elt.startswith("tuple<") and len(elt[6:-1].split(",")) == len(var):
+            # `for (a, b, c) in v.iter()` over a vector of tuples: the components by projection
+            tys_ = elt[6:-1].split(",")
+            benv = dict(penv)
+            for jx_, (nm_, ty_) in enumerate(zip(var, tys_)):
+                benv[nm_] = ("x_" + "".join(".2" for _ in range(jx_)) + (".1" if jx_ < len(tys_) - 1 else ""), ty_)
+            hd = "x_"
+        elif isinstance(var, tuple):
             if zipped is None or len(var) != 2:
                 raise Unsupported("tuple pattern in a for loop over a non-zip")
             benv = dict(penv, **{var[0]: ("x_.1", zipped[0]), var[1]: ("x_.2", zipped[1])})
@@ -3333,13 +3485,53 @@ READS_OWN = {"Ownable": {"ledger_sequence": "u32", "min_temp_ttl": "u32", "max_t
 FILES_OWN = [("Ownable", "packages/access/src/role_transfer/storage.rs", ["transfer_role", "accept_transfer"]),
              ("Ownable", "packages/access/src/ownable/storage.rs",
               ["get_owner", "enforce_owner_auth", "transfer_ownership", "accept_ownership", "renounce_ownership"])]
+STRUCTS_CA = {"ContextRule": [("id", "u32"), ("context_type", "Val"), ("name", "Val"), ("signers", "Vec<Signer>"), ("policies", "Vec<Address>"),
+                               ("valid_until", "Option<u32>")]}
+READS_CA = {"CheckAuth": {"VerifierClient_verify": ("fn", ["Address", "Bytes", "Bytes", "Bytes"], "bool"),
+                          "authorized_for_args": ("purefn", ["Address", "tuple<Bytes32>"], "bool"),
+                          "current_contract_address": "Address",
+                          "get_validated_context": ("fn", ["Ctx", "Vec<Signer>"], "tuple<ContextRule,Ctx,Vec<Signer>>"),
+                          "PolicyClient_enforce": ("fn", ["Address", "Ctx", "Vec<Signer>", "ContextRule", "Address"], "()")}}
+FILES_CA = [("CheckAuth", "packages/accounts/src/smart_account/storage.rs", ["authenticate", "do_check_auth"])]
+READS_AU = {"Auth": {"VerifierClient_verify": ("fn", ["Address", "Bytes", "Bytes", "Bytes"], "bool"),
+                     "authorized_for_args": ("purefn", ["Address", "tuple<Bytes32>"], "bool")}}
+FILES_AU = [("Auth", "packages/accounts/src/smart_account/storage.rs", ["authenticate"])]
+STORE_DM = {"Docs": {"Index": (["Bytes32"], "u32"), "Bucket": (["u32"], "Vec<tuple<Bytes32,Document>>"), "Count": ([], "u32")}}
+STRUCTS_DM = {"Document": [("uri", "Bytes"), ("document_hash", "Bytes32"), ("timestamp", "u64")]}
+FILES_DM = [("Docs", "packages/tokens/src/rwa/extensions/doc_manager/mod.rs", []),
+            ("Docs", "packages/tokens/src/rwa/extensions/doc_manager/storage.rs",
+             ["get_document_count", "get_document", "get_document_by_index", "get_documents", "set_document", "remove_document"])]
+STORE_CP = {"Compliance": {"HookModules": (["ComplianceHook"], "Vec<Address>")}}
+READS_CP = {"Compliance": {"authorized": "addr2bool", "is_token_bound": ("purefn", ["Address"], "bool"),
+                           "ComplianceModuleClient_on_transfer": ("fn", ["Address", "Address", "Address", "i128", "Address"], "()"),
+                           "ComplianceModuleClient_on_created": ("fn", ["Address", "Address", "i128", "Address"], "()"),
+                           "ComplianceModuleClient_on_destroyed": ("fn", ["Address", "Address", "i128", "Address"], "()"),
+                           "ComplianceModuleClient_can_transfer": ("fn", ["Address", "Address", "Address", "i128", "Address"], "bool"),
+                           "ComplianceModuleClient_can_create": ("fn", ["Address", "Address", "i128", "Address"], "bool")}}
+FILES_CP = [("Compliance", "packages/tokens/src/rwa/compliance/mod.rs", []),
+            ("Compliance", "packages/tokens/src/rwa/compliance/storage.rs",
+             ["get_modules_for_hook", "is_module_registered", "add_module_to", "remove_module_from", "transferred", "created",
+              "destroyed", "can_transfer", "can_create", "require_auth_from_bound_token"])]
+STORE_IRS = {"Irs": {"Identity": (["Address"], "Address"), "IdentityProfile": (["Address"], "IrsProfile"),
+                     "RecoveredTo": (["Address"], "Address")}}
+STRUCTS_IRS = {"IrsProfile": [("identity_type", "Val"), ("countries", "Vec<Val>")]}
+READS_IRS = {"Irs": {"validate_country_data": ("fn", ["Val"], "()")}}
+FILES_IRS = [("Irs", "packages/tokens/src/rwa/identity_registry_storage/mod.rs", []),
+             ("Irs", "packages/tokens/src/rwa/identity_registry_storage/storage.rs",
+              ["stored_identity", "get_identity_profile", "get_country_data", "get_country_data_entries", "get_recovered_to",
+               "add_identity", "modify_identity", "remove_identity", "recover_identity", "add_country_data_entries",
+               "modify_country_data", "delete_country_data"])]
+STORE_TB = {"Binder": {"TokenBucket": (["u32"], "Vec<Address>"), "TotalCount": ([], "u32")}}
+FILES_TB = [("Binder", "packages/tokens/src/rwa/utils/token_binder/mod.rs", []),
+            ("Binder", "packages/tokens/src/rwa/utils/token_binder/storage.rs",
+             ["linked_token_count", "get_token_by_index", "get_token_index", "is_token_bound", "linked_tokens", "bind_token", "unbind_token"])]
 STORE_CR = {"Rules": {"Meta": (["u32"], "MetaS"), "Signers": (["u32"], "Vec<Signer>"), "Policies": (["u32"], "Vec<Address>"),
                       "Ids": (["Val"], "Vec<u32>")}}
 STRUCTS_CR = {"MetaS": [("name", "Val"), ("context_type", "Val"), ("valid_until", "Option<u32>")],
               "ContextRule": [("id", "u32"), ("context_type", "Val"), ("name", "Val"), ("signers", "Vec<Signer>"), ("policies", "Vec<Address>"),
                               ("valid_until", "Option<u32>")]}
 READS_CR = {"Rules": {"ledger_sequence": "u32"}}
-FILES_CR = [("Rules", "packages/accounts/src/smart_account/storage.rs", ["get_context_rule", "get_valid_context_rules"])]
+FILES_CR = [("Rules", "packages/accounts/src/smart_account/storage.rs", ["get_context_rule", "get_context_rules", "get_valid_context_rules"])]
 STORE_CLM = {"Claims": {"Claim": (["Bytes32"], "IdClaim"), "ClaimsByTopic": (["u32"], "Vec<Bytes32>")}}
 STRUCTS_CLM = {"IdClaim": [("topic", "u32"), ("scheme", "u32"), ("issuer", "Address"), ("signature", "Bytes"), ("data", "Bytes"), ("uri", "Val")]}
 READS_CLM = {"Claims": {"current_contract_address": "Address",
@@ -3506,6 +3698,7 @@ def translate(repo, FILES=FILES, DEPS=(), imports=("OZ.Model.RustSem",), reads=N
     sigs, consts, parsed, enums, enum_home = {}, {}, [], {}, set()
     VTUPLE_ENUMS.clear()
     VTUPLE_ENUMS.update((spec_enums or {}).keys())
+    VTUPLE_ENUMS.update(TENUMS.keys())
     emit_ns = {ns for ns, _, _ in FILES}
     for ns, rel, only in list(DEPS) + list(FILES):
         src = open(os.path.join(repo, rel)).read()
@@ -3517,7 +3710,26 @@ def translate(repo, FILES=FILES, DEPS=(), imports=("OZ.Model.RustSem",), reads=N
                 try:
                     l, lt_ = g.pure(it[3], {})
                 except Unsupported:
-                    continue   # a constant outside the subset is an error only if it is used
+                    # a product / sum / difference of unsigned constants: folded here (the compiler has checked that
+                    # it fits the declared type)
+                    def cval(x_):
+                        x_ = g.strip(x_)
+                        if x_[0] == "num":
+                            return int(str(x_[1]).replace("_", ""), 0)
+                        if x_[0] == "var" and x_[1] in consts:
+                            m_ = re.fullmatch(r"\((\d+) : Nat\)", consts[x_[1]][1])
+                            if m_:
+                                return int(m_.group(1))
+                        if x_[0] == "bin" and x_[1] in ("*", "+", "-"):
+                            a_, b_ = cval(x_[2]), cval(x_[3])
+                            if a_ is not None and b_ is not None:
+                                return {"*": a_ * b_, "+": a_ + b_, "-": a_ - b_}[x_[1]]
+                        return None
+                    v_ = cval(it[3]) if it[2] in NATTY else None
+                    if v_ is None or v_ < 0:
+                        continue   # a constant outside the subset is an error only if it is used
+                    consts[it[1]] = (it[2], f"({v_} : Nat)")
+                    continue
                 consts[it[1]] = (it[2], as_nat(l, lt_) if it[2] in NATTY else l)
             elif it[0] == "enum":
                 enums[it[1]] = it[2]
@@ -3601,6 +3813,9 @@ def translate(repo, FILES=FILES, DEPS=(), imports=("OZ.Model.RustSem",), reads=N
             g0.enums = enums
             g0.structs = structs or {}
             g0.penums = penums or {}
+            for en_, vs_ in TENUMS.items():
+                out.append(f"inductive {en_} where\n" + "\n".join(
+                    f"  | {vn_} " + " ".join(f"(a{j_} : {g0.lean_ty(t_)})" for j_, t_ in enumerate(ts_)) for vn_, ts_ in vs_) + "\n  deriving DecidableEq, Repr\n")
             for sn, flds in (structs or {}).items():
                 out.append(f"structure {sn} where\n" + "\n".join(f"  {fn_} : {g0.lean_ty(ft)}" for fn_, ft in flds) + "\n  deriving DecidableEq, Repr\n")
             for en_, vs_ in (penums or {}).items():
@@ -4039,6 +4254,32 @@ def main():
             txt = translate(repo, FILES_CTIF, reads={"TopicsF": {}}, store=STORE_CTIF)
         elif "--topics" in sys.argv:
             txt = translate(repo, FILES_CTI, reads={"Topics": {}}, store=STORE_CTI)
+        elif "--check-auth" in sys.argv:
+            TENUMS["Signer"] = [("Delegated", ["Address"]), ("External", ["Address", "Bytes"])]
+            txt = translate(repo, FILES_CA, reads=READS_CA, structs=STRUCTS_CA,
+                            tymaps={"packages/accounts/src/smart_account/storage.rs":
+                                    {"Hash<32>": "Bytes32", "Context": "Ctx", "Signatures": "Map<Signer,Bytes>", "ContextRuleType": "Val", "String": "Val"}},
+                            rename_types={"ContextRule": "CheckAuth.ContextRule"})
+        elif "--authenticate" in sys.argv:
+            TENUMS["Signer"] = [("Delegated", ["Address"]), ("External", ["Address", "Bytes"])]
+            VTUPLE_ENUMS.add("Signer")
+            txt = translate(repo, FILES_AU, reads=READS_AU,
+                            tymaps={"packages/accounts/src/smart_account/storage.rs": {"Hash<32>": "Bytes32"}})
+        elif "--docs" in sys.argv:
+            HELPER_GETTERS.add("get_persistent_entry")
+            txt = translate(repo, FILES_DM, reads={"Docs": {"ledger_timestamp": "u64"}}, structs=STRUCTS_DM, store=STORE_DM,
+                            tymaps={"packages/tokens/src/rwa/extensions/doc_manager/storage.rs": {"BytesN<32>": "Bytes32", "String": "Bytes"}},
+                            rename_types={"Document": "Docs.Document"})
+        elif "--compliance" in sys.argv:
+            txt = translate(repo, FILES_CP, reads=READS_CP, store=STORE_CP)
+        elif "--irs" in sys.argv:
+            HELPER_GETTERS.add("get_persistent_entry")
+            STRUCT_ALIAS["IdentityProfile"] = "IrsProfile"
+            txt = translate(repo, FILES_IRS, reads=READS_IRS, structs=STRUCTS_IRS, store=STORE_IRS,
+                            tymaps={"packages/tokens/src/rwa/identity_registry_storage/storage.rs": {"CountryData": "Val", "IdentityType": "Val", "IdentityProfile": "IrsProfile"}})
+        elif "--binder" in sys.argv:
+            HELPER_GETTERS.add("get_persistent_entry")
+            txt = translate(repo, FILES_TB, reads={"Binder": {}}, store=STORE_TB)
         elif "--context-rules" in sys.argv:
             # `ContextRuleType` (Default / CallContract(addr) / CreateContract(hash)) is an opaque identifier; the
             # identifier of `Default` is 0 (no other rule type has it)
